@@ -77,7 +77,7 @@ join_same_entries(econf_file *ef)
 	  {
 	    /* removing leading spaces */
 	    while(isspace(*post)) post++;
-	    ret = asprintf(&(ef->file_entry[i].value), "%s\n%s", pre,
+	    ret = asprintf(&(ef->file_entry[i].value), "%s\n%s", pre ? pre : "",
 			   post);
 	    if(ret<0)
 	      return ECONF_NOMEM;
@@ -92,7 +92,7 @@ join_same_entries(econf_file *ef)
 	  post = ef->file_entry[j].comment_before_key;
           pre = ef->file_entry[i].comment_before_key;
 	  int ret = asprintf(&(ef->file_entry[i].comment_before_key),
-			     "%s\n%s", pre, post);
+			     "%s\n%s", pre ? pre : "", post);
 	  if(ret<0)
 	    return ECONF_NOMEM;
 	  free(pre);
@@ -154,8 +154,8 @@ store (econf_file *ef, const char *group, const char *key,
     }
 
     char *content = ef->file_entry[ef->length-1].value;
-    int ret = asprintf(&(ef->file_entry[ef->length-1].value), "%s\n%s", content,
-	     value);
+    int ret = asprintf(&(ef->file_entry[ef->length-1].value), "%s\n%s",
+		       content ? content : "", value);
     if(ret<0)
       return ECONF_NOMEM;
     free(content);
